@@ -241,6 +241,54 @@ def rule_tokens(ctx):
         lost = sorted(L for L in range(start + 1, 24) if rr and not any(L in r[3] for r in rr))
         ctx.check(bool(rr) and not lost, "parse_position:%s-every-move-count" % name, "%s: the move slice is taken for every list with at least one move (lengths %d.. reach it)" % (name, start + 1), b.where(0),
                   bad_what="%s: a `moves` list is silently dropped when the command has %s tokens after `position` (a length test in front of the slice excludes it): the board then misses those moves" % (name, lost[:4]))
+    # the move tokens reach the command as they were written: Position.moves is None or Some(the slice's tokens, each
+    # converted to an owned string by an identity conversion, in order)
+    def is_conv(name):
+        # str -> String by a std conversion that keeps the text: to_string / to_owned / String::from / into / clone
+        last = (name or "").rsplit("::", 1)[-1]
+        return (last == "to_string" and "ToString" in name) or (last == "to_owned" and "ToOwned" in name) or (last == "from" and "String as std::convert::From<&str>" in name) \
+            or (last == "into" and "std::convert::Into<" in name) or (last == "clone" and "Clone" in name and ("String" in name or "<T as" in name))
+
+    payloads = []
+    for bi, i, st in b.stmts():
+        rv = st["rv"]
+        if rv.get("k") == "agg" and rv.get("adt") == "uci::uci_command::UCICommand" and rv.get("variant") == "Position" and len(rv["ops"]) == 2:
+            mv = sym.operand(rv["ops"][1])
+            if mv[0] == "var":
+                ls = [l for l in range(len(b.locals)) if b.local_name(l) == mv[1]]
+                for d in (b.defs().get(ls[0], []) if len(ls) == 1 else []):
+                    payloads.append((d[0], sym.rvalue(d[2]) if d[2].get("k") not in ("call", "partial") else ("?",)))
+            else:
+                payloads.append((bi, mv))
+    bad = []
+    n_some = 0
+    for bi, v in payloads:
+        v = mir.strip_copies(v)
+        if v[0] == "agg" and v[2] == "None":
+            continue
+        x = mir.strip_copies(v[3][0]) if v[0] == "agg" and v[2] == "Some" and len(v[3]) == 1 else None
+        ok = False
+        if x is not None and x[0] == "call" and x[1] == "std::iter::Iterator::collect" and len(x[2]) == 1:
+            m = x[2][0]
+            if m[0] == "call" and m[1] == "std::iter::Iterator::map" and len(m[2]) == 2:
+                src, f = m[2]
+                src_ok = src[0] == "call" and src[1].endswith("<impl [T]>::iter") and [y for y in walk(src) if isinstance(y, tuple) and y[0] == "call" and y[1].endswith("Index<I> for [T]>::index")]
+                if f[0] == "fn":
+                    ok = bool(src_ok) and is_conv(f[1])
+                elif f[0] == "closure" and f[1] in ix.bodies and not f[2]:
+                    cb = ix.bodies[f[1]]
+                    r = mir.strip_copies(mir.Sym(cb, ix).local(0))
+                    ctx.functions.add(cb.key)
+                    while r[0] == "call" and is_conv(r[1]) and len(r[2]) == 1:
+                        r = mir.strip_copies(mir.strip_refs(r[2][0]))
+                        while r[0] == "deref":
+                            r = mir.strip_copies(mir.strip_refs(r[1]))
+                    ok = bool(src_ok) and cb.arg_count == 2 and r == ("arg", cb.local_name(2)) and len(list(cb.calls())) >= 1 and all(is_conv(t.get("callee") or "") for _b, t in cb.calls())
+        n_some += 1
+        if not ok:
+            bad.append((bi, expr_str(v)[:140]))
+    ctx.check(n_some >= 1 and not bad, "parse_position:tokens-unchanged", "Position.moves is the sliced tokens themselves, each converted to an owned string and nothing else, in order", b.where(bad[0][0] if bad else 0),
+              bad_what="the move list handed on is `%s`: not the tokens as written (a rewritten token names a different move than the one the GUI sent)" % (bad[0][1] if bad else "never Some"))
     # kind selection by keyword
     kinds = {}
     for bi, i, s in b.stmts():
